@@ -3944,7 +3944,15 @@ func (r *Resolver) processDelegation(ctx context.Context, rs *resolveState, resp
 	// context is gone — an unbounded context.Background here
 	// used to leak goroutines and mutate authservers long
 	// after the query returned.
-	if r.cfg.IPv6Access {
+	//
+	// An enrichment job does not start further enrichment jobs. Its own
+	// lookups walk through delegations too, and each one used to spawn the
+	// next detached job under a fresh background context: an authority
+	// answering every name-server AAAA lookup with a referral to a new
+	// zone kept the chain of jobs going, one hop every few seconds, long
+	// after the client had been answered - with the firewall off or in
+	// shadow mode nothing but the global slot pool bounded it.
+	if r.cfg.IPv6Access && !middleware.IsBestEffortRecursionWork(ctx) {
 		reqid := requestIDFromContext(ctx)
 		work := rs.work
 		attemptGuard := middleware.ResolutionAttemptGuardFrom(ctx)
